@@ -340,3 +340,38 @@ fn dev_rule(name: &'static str) {
 }
 mw!(c02_dev_shm_never_opened, { dev_rule("/dev/shm/x") });
 mw!(c02_dev_zero_never_opened, { dev_rule("/dev/zero (deleted)") });
+
+// ---- probes (bisecting the cost of mappings::write; not listed in a tier) ----
+fn probe_write(named: bool, bid: u8, with_user: bool) {
+    probe_write2(named, bid, with_user, false)
+}
+fn probe_write2(named: bool, bid: u8, with_user: bool, son: bool) {
+    reset_scripts([bid, 0, 0, 0], [son; 4]);
+    let k: usize = 0x5000;
+    let m0 = mapping(k << 12, 2 << 12, MMPermissions::READ | MMPermissions::EXECUTE, if named { Some("/a/x.so") } else { None });
+    let mut d = dumper(Vec::new(), vec![m0], 4096);
+    let mut cfg = MinidumpWriter::new(4242, 4243);
+    if with_user {
+        let user = mapping(0x9000 << 12, 3 << 12, MMPermissions::READ, Some("/u/z"));
+        cfg.user_mapping_list.push(MappingEntry { mapping: user, identifier: vec![1, 2] });
+    }
+    let mut buf = Buffer::with_capacity(300);
+    let r = mappings::write(&mut cfg, &mut buf, &mut d);
+    let dirent = match r {
+        Ok(x) => x,
+        Err(e) => {
+            core::mem::forget(e);
+            panic!("mappings::write failed");
+        }
+    };
+    assert!(dirent.location.rva == 0);
+    kani::cover!(true, "reached");
+    core::mem::forget(d);
+    core::mem::forget(cfg);
+}
+mw!(c08_probe_unnamed_nouser, { probe_write(false, 0, false) });
+mw!(c08_probe_unnamed_user, { probe_write(false, 0, true) });
+mw!(c08_probe_named_biderr, { probe_write(true, 0, false) });
+mw!(c08_probe_named_bidok, { probe_write(true, 1, false) });
+mw!(c08_probe_named_bidzero, { probe_write(true, 2, false) });
+mw!(c08_probe_named_bidok_sonok, { probe_write2(true, 1, false, true) });
